@@ -490,6 +490,7 @@ def W1():
     add(w, "nw_b", "Network", bandwidth_energy_intensity=Q(0.2, "kilowatt_hour / gigabyte"))
     _country(w, "c", "C", 100, "Europe/Paris")
     _country(w, "c_b", "CB", 400, "America/New_York")
+    _country(w, "c_s", "CS", 250, "Europe/Paris")      # same zone as c, another intensity
     add(w, "d", "Device")
     add(w, "d_b", "Device", power=Q(10, "watt"))
     _up(w, "up", "uj", "nw", "c", ["d"], [1, 2, 0, 3, 5, 1], "2025-01-01 00:00")
@@ -613,7 +614,16 @@ def W1f():
     return w
 
 
-FAMILIES = {"W0": W0, "W1": W1, "W2": W2, "W3": W3, "W4": W4, "W16": W16, "W1f": W1f}
+def W1c():
+    """W1 where the two usage patterns (shared journey, jobs and network) are in two countries / time zones."""
+    w = W1()
+    w["name"] = "W1c"
+    w["objects"]["up2"]["attrs"]["country"] = link("c_b")
+    w["objects"]["up2"]["attrs"]["devices"] = lst("d", "d_b")
+    return w
+
+
+FAMILIES = {"W0": W0, "W1": W1, "W2": W2, "W3": W3, "W4": W4, "W16": W16, "W1f": W1f, "W1c": W1c}
 
 
 def family(name):
